@@ -344,7 +344,7 @@ type hist struct {
 	noCorr    string
 	failed    bool
 	aliasSeen map[string]bool
-	nonFinite bool // a layer with a NaN/Inf matrix exists (known FitImage finding): matrix oracles are off
+	nonFinite bool // a layer with a NaN/Inf matrix exists (already reported as a failure): matrix oracles are off
 }
 
 func (h *hist) op(human string, toks ...string) {
@@ -499,7 +499,7 @@ func (h *hist) judgeDash(k call, i, n int, length float64, lostBefore *bool) {
 		what = "the dash pattern is dropped (solid stroke) although the path extends beyond the first dash"
 	}
 	switch {
-	case strokeDropped && *lostBefore && idx%2 == 0:
+	case strokeDropped && *lostBefore:
 		h.fail("drawpath-multi:stroke-cleared-by-earlier-path", desc+"; "+what+"; an earlier path of the same call had no ink")
 	case periodIsOdd(cur.Dashes):
 		h.fail("checkdash:odd-length-pattern", desc+"; "+what)
@@ -507,8 +507,6 @@ func (h *hist) judgeDash(k call, i, n int, length float64, lostBefore *bool) {
 		h.fail("checkdash:negative-offset", desc+"; "+what)
 	case into > 0 && length <= di+into:
 		h.fail("checkdash:start-position-sign", desc+"; "+what+" (consistent with testing length <= d[i]+into instead of d[i]-into)")
-	case strokeDropped && *lostBefore:
-		h.fail("drawpath-multi:stroke-cleared-by-earlier-path", desc+"; "+what+"; an earlier path of the same call had no ink")
 	case strokeDropped:
 		h.fail("draw-style:stroke-lost", desc+"; "+what)
 	default:
@@ -663,20 +661,24 @@ func (h *hist) fitImage() {
 		case 2: // smallest uniformly scaled copy covering; cropped (by whole pixels, centred) to the rectangle
 			sc := math.Max(rw/w, rh/ht)
 			cw, ch := w, ht
-			v := (ht-rh/sc)/2 + 0.5
+			// pixels cropped on each side: rounded to the nearest pixel, but at least one row/column is kept
+			v, size := (ht-rh/sc)/2+0.5, ht
 			if rw/w < rh/ht {
-				v = (w-rw/sc)/2 + 0.5
-				cw = w - 2*math.Floor(v)
-			} else {
-				ch = ht - 2*math.Floor(v)
+				v, size = (w-rw/sc)/2+0.5, w
 			}
-			if math.Abs(v-math.Round(v)) < 1e-9 {
+			crop, maxCrop := math.Floor(v), math.Floor((size-1)/2)
+			if crop > maxCrop {
+				crop = maxCrop
+				cropZero = true // (would crop everything)
+			} else if math.Abs(v-math.Round(v)) < 1e-9 {
 				cropTie = true // the number of cropped pixels is a rounding tie: either neighbour is acceptable
 			}
-			e = h.base(x0, y0).mul(imageMat(h.st.cs, cw, ch, rw/cw, rh/ch))
-			if cw <= 0 || ch <= 0 {
-				cropZero = true
+			if rw/w < rh/ht {
+				cw = w - 2*crop
+			} else {
+				ch = ht - 2*crop
 			}
+			e = h.base(x0, y0).mul(imageMat(h.st.cs, cw, ch, rw/cw, rh/ch))
 		}
 		e.n += 6
 		expect = []sm{e}
@@ -688,7 +690,7 @@ func (h *hist) fitImage() {
 	if msg := hc.Try(func() { h.ctx.FitImage(img, rect, canvas.ImageFit(fit)) }); msg != "" {
 		h.fail("panic:FitImage", msg)
 	}
-	if cropTie && !cropZero {
+	if cropTie {
 		h.c.Count("oracle-skip:fitimage-cover-rounding-tie")
 		got := h.tee.calls[before:]
 		for i := range got {
@@ -698,29 +700,16 @@ func (h *hist) fitImage() {
 		return
 	}
 	if cropZero {
-		// less than half a pixel row/column of the image would remain visible
-		c.Count("draw:fitimage-cover-crops-everything")
-		got := h.tee.calls[before:]
-		bad := len(got) == 1
-		if bad {
-			bad = false
-			for _, r := range got[0].m {
-				for _, v := range r {
-					if math.IsNaN(v) || math.IsInf(v, 0) {
-						bad = true
-					}
-				}
-			}
-		}
-		if bad {
-			h.fail("fitimage-cover:cropped-to-zero-pixels", fmt.Sprintf("FitImage(ImageCover) of a %dx%d image into %v crops the image to zero pixels and sends RenderImage a non-finite matrix %v", s[0], s[1], rect, got[0].m))
-		}
-		// bookkeeping: accept whatever was emitted
+		// less than half a pixel row/column of the image would remain visible: one row/column is kept
+		c.Count("draw:fitimage-cover-keeps-one-row")
+	}
+	if got := h.tee.calls[before:]; len(got) == 1 && !(sm{v: mat(got[0].m)}).finite() {
+		h.fail("fitimage-cover:cropped-to-zero-pixels", fmt.Sprintf("FitImage(fit %d) of a %dx%d image into %v sends RenderImage a %gx%g image with the non-finite matrix %v", fit, s[0], s[1], rect, got[0].w, got[0].h, got[0].m))
 		for i := range got {
 			h.expect = append(h.expect, sm{mat(got[i].m), mabs(mat(got[i].m)), 1})
 			h.layers = append(h.layers, sLayer{before + i, h.z, sIdent})
 		}
-		h.nonFinite = h.nonFinite || bad
+		h.nonFinite = true
 		return
 	}
 	h.checkDraw("FitImage", before, expect, nil)
@@ -945,7 +934,7 @@ func (h *hist) checkFit(margin float64, before, after []call) {
 		return
 	}
 	if h.nonFinite {
-		// a non-finite layer (known FitImage finding) poisons the bounding box: nothing to judge
+		// a non-finite layer (already reported) poisons the bounding box: nothing to judge
 		h.c.Count("oracle-skip:fit-with-non-finite-layer")
 		nan := lift(mat{{math.NaN(), 0, 0}, {0, 0, 0}})
 		for i := range h.layers {
